@@ -14,6 +14,8 @@ RULES = [
     ("enum_empty", re.compile(r'^Enum ' + Q + r' has no variants which is not allowed\. Add at least one variant$'), None),
     ("enum_dup_value", re.compile(r'^Duplicated assigned value\(s\) for enum ' + Q + r' in object ' + Q + r' on field ' + Q + r': (.*)$', re.S), lambda g: list(g[:3])),
     ("enum_value_too_high", re.compile(r'^The value of variant ' + Q + r' is too high for enum ' + Q + r' in object ' + Q + r' on field ' + Q + r': (-?\d+) \(max = (-?\d+)\)$'), None),
+    ("enum_value_too_low", re.compile(r'^The value of variant ' + Q + r' is too low for enum ' + Q + r' in object ' + Q + r' on field ' + Q + r': (-?\d+) \(min = 0\)$'), None),
+    ("enum_value_repr", re.compile(r'^The value of variant ' + Q + r' does not fit the i(?:8|16|32|64|128) representation of enum ' + Q + r' in object ' + Q + r' on field ' + Q + r': (-?\d+) \(min = -?\d+, max = \d+\)$'), None),
     ("enum_multi_default", re.compile(r'^More than one default defined on enum ' + Q + r' in object ' + Q + r' on field ' + Q + r'$'), None),
     ("enum_multi_catch_all", re.compile(r'^More than one catch all defined on enum ' + Q + r' in object ' + Q + r' on field ' + Q + r'$'), None),
     ("enum_not_covered", re.compile(r'^Not all bitpatterns are covered on non-try conversion enum ' + Q + r' in object ' + Q + r' on field ' + Q + r'$'), None),
@@ -26,6 +28,7 @@ RULES = [
     ("field_empty", re.compile(r'^Object ' + Q + r' has field ' + Q + r' that is 0 bits\. This is likely a mistake$'), None),
     ("field_overlap", re.compile(r'^Object ' + Q + r' has two overlapping fields: ' + Q + r' and ' + Q + r'\. If this is intended'), None),
     ("ref_unknown", re.compile(r'^(Block|Register|Command) ref ' + Q + r' refers to unknown (?:block|register|command) ' + Q + r'$'), None),
+    ("ref_recursive", re.compile(r'^Block ref ' + Q + r' refers to block ' + Q + r' which contains the ref itself$'), None),
     ("no_address_type", re.compile(r'^No (register|command|buffer) address type is specified in the global config'), None),
     ("address_too_low", re.compile(r'^The (register|command|buffer) addresses go as low as (-?\d+), but the selected address type `(\w+)` only goes down to (-?\d+)\.'), None),
     ("address_too_high", re.compile(r'^The (register|command|buffer) addresses go as high as (-?\d+), but the selected address type `(\w+)` only goes up to (-?\d+)\.'), None),
